@@ -371,5 +371,40 @@ func runC10(c *h.Ctx) {
 		}
 		checkFilter(c, &c10Case{lax: lax, prefix: prefix, cond: cond, cond2: cond2, doc: docTxt, useNum: useNum, tz: r.IntN(3) == 0, vars: vars})
 	}
+	// directed: conditions whose exists() operand keeps an earlier item and
+	// rejects the one visited last (subscript lists, ranges, .keyvalue(), .**)
+	dirDocs := []string{`[{"a":[5,0],"o":{"p":5,"q":0},"k":1},{"a":[0,5],"o":{"p":0,"q":5},"k":2},{"a":[0,0],"o":{"p":0,"q":0},"k":3},{"a":[5,5],"o":{},"k":4},{"a":7,"o":{"z":{"p":9}},"k":5}]`}
+	kk := 0
+	for _, cond := range []string{"exists(@.a[0,1] ? (@ > 1))", "exists(@.a[0 to 1] ? (@ > 1))", "exists(@.a[0 to last] ? (@ > 1))", "exists(@.o.keyvalue() ? (@.value > 1))", "exists(@.o.keyvalue().value ? (@ > 1))",
+		"exists(@.o.** ? (@ > 1))", "exists(@.k.** ? (@ > 1))", "exists(@.o.**{0} ? (@.type() == \"object\"))", "exists(@.a[last, 0] ? (@ > 1))", "!(exists(@.a[0,1] ? (@ > 1)))", "exists(@.a[0,1] ? (@ > 1)) && @.k > 0",
+		"exists(@.a[*] ? (@ > 1))", "exists(@.o.* ? (@ > 1))", "(exists(@.a[0,1] ? (@ > 1))) is unknown"} {
+		for _, lax := range []bool{true, false} {
+			for _, d := range dirDocs {
+				kk++
+				if !c.Mine(kk) {
+					continue
+				}
+				mode := ""
+				if !lax {
+					mode = "strict "
+				}
+				p, err, pan := h.ParseSafe(mode + "$[*] ? (" + cond + ")")
+				if err != nil || pan != "" {
+					c.Count("gen.unparsable", 1)
+					continue
+				}
+				root := gen.FromAST(p.AST).Root
+				x := root
+				for x.Next != nil && x.Next.K != gen.KFilter {
+					x = x.Next
+				}
+				cn := x.Next.A
+				x.Next = nil
+				for _, useNum := range []bool{false, true} {
+					checkFilter(c, &c10Case{lax: lax, prefix: root.Clone(), cond: cn, doc: d, useNum: useNum, vars: stdVars1})
+				}
+			}
+		}
+	}
 	_ = strings.Join
 }
